@@ -747,7 +747,9 @@ def validate_records(chk, recs, meta, label, batch=20000):
         rp = {"kind": "string", "octets": b.hex()} if len(b) <= 4096 else {"kind": "string", "octets": b[:64].hex(), "len": len(b), "truncated": True}
         sig = {"api": "TagList.decode", "input": input_class(b, v["canon"], v["ok"]), "where": m["where"]}
         detail = {"octets": rp["octets"], "disagree_on": sorted(v["why"]), "spec_ok": v["ok"], "spec_tags": [str(want(t))[:80] for t in v["tags"][:6]]}
-        if v["why"] == frozenset(["gc"]):
+        if "overread" in v["why"]:
+            chk.violation("ConsumesAll", dict(sig, case="returned tag announces another data length than it holds"), detail, rp)
+        elif v["why"] == frozenset(["gc"]):
             chk.violation("ContextIffBalanced", {"api": "get_context", "expected": code_name(v["gc"])}, detail, rp)
         elif v["canon"]:
             chk.violation("DecodeEqualsSpec", sig, detail, rp)
